@@ -13,6 +13,8 @@ def main(tier, only):
     cfgs, log, sets, nsol = configs(tier, "c02", "C02")
     # timeout obligations: one setting per constraint, clock increments enumerated by the solver
     for ci in range(NCONSTRAINTS):
+        if tier == "quick" and ci % 2 == 1 and ci != 1:
+            continue      # quick tier: every second constraint gets the clock-driven obligations
         cfgs.append(dict(tag="timeout.c%d" % ci, env={"VERIF_FIX": "0=%d,1=2,2=2,3=1,4=0,5=7,6=0,7=0" % ci, "VERIF_NSOL": nsol, "VERIF_CALL_LIMIT": "10",
                                                         "VERIF_MODE": "c02", "VERIF_IGNORED_LOG": log, "VERIF_CONFIGURED": "1"}, only=["timeout"], timeout=cfgs[0]["timeout"]))
         # no timeout configured, unsat support on: its internal 2 s budget must not surface as TimeoutError
